@@ -18,7 +18,7 @@ RULE = (
     "Oracle: untouched TFP distribution, independent bijector instance, Jacobian by autodiff. "
     "non-trivial = non-identity bijector and a point with |log-Jacobian| > 0.05; distinct by case hash"
 )
-REQUIRED = ["unchanged_after_failed_transform", "original_value_unchanged", "original_is_bijector_image", "density_change_of_variables",
+REQUIRED = ["identities_hold_in_a_copy", "unchanged_after_failed_transform", "original_value_unchanged", "original_is_bijector_image", "density_change_of_variables",
             "parameter_flag_moved", "original_has_no_distribution", "entry_var_transform_instance",
             "entry_var_transform_class", "entry_var_transform_default", "entry_auto_transform",
             "entry_graphbuilder_transform"]
@@ -78,7 +78,8 @@ def gen_case(rng, idx, seed):
     return {"idx": idx, "seed": seed, "fam": fam, "bij": bij, "entry": entry, "args": args, "arg_is_var": arg_is_var,
             "shape": [] if rng.random() < 0.6 else [3], "parameter": bool(rng.random() < 0.7),
             "bij_arg": float(np.round(rng.uniform(0.5, 3.0), 2)), "bij_arg_is_var": bool(rng.random() < 0.5),
-            "x64": bool(idx % 4 == 0), "failed_first": str(rng.choice(["none", "none", "instance_with_args", "class_without_args", "bad_kwarg"]))}
+            "x64": bool(idx % 4 == 0), "failed_first": str(rng.choice(["none", "none", "instance_with_args", "class_without_args", "bad_kwarg"])),
+            "via_root": bool(rng.random() < 0.5), "copy_phase": bool(rng.random() < 0.5)}
 
 
 def support_value(rng, fam, shape, args=None):
@@ -176,7 +177,12 @@ def run_case(case):
             elif entry == "gb_default":
                 tvar = gb.transform(var, None)
                 res.mon("entry_graphbuilder_transform")
-            gb.add(var)
+            if case.get("via_root", False):
+                # documented workflow: only the root is added; the (flagged / transformed) variable is found as its input
+                root = lsl.Var(lsl.Calc(lambda v_: v_ * 1.0, var), name="root")
+                gb.add(root)
+            else:
+                gb.add(var)
             model = gb.build_model()
         if entry == "auto":
             if "x_transformed" not in model.vars:
@@ -265,6 +271,47 @@ def run_case(case):
                 break
             if bij != "Identity" and np.max(np.abs(ljac)) > 0.05:
                 nontriv = True
+        # ---- the same identities must hold in a deep copy of the model after values changed *in the copy*
+        if case.get("copy_phase") and not res.violations:
+            import copy as _copy
+
+            M2 = _copy.deepcopy(model) if case["idx"] % 2 else lsl.GraphBuilder(to_float32=not x64).add(
+                *model.copy_nodes_and_vars()[1].values()).build_model()
+            res.mon("identities_hold_in_a_copy")
+            new_args = {}
+            for k in pvars:
+                nv = float(case["args"][k] * 1.3)
+                M2.vars[f"p_{k}"].value = jnp.asarray(nv, ft)
+                new_args[k] = nv
+            nb = None
+            if barg_var is not None:
+                nb = float(np.round(case["bij_arg"] * 0.6 + 0.4, 3))
+                M2.vars["barg"].value = jnp.asarray(nb, ft)
+            t2 = jnp.asarray(np.round(rng.normal(0.2, 0.8, size=shape), 3), ft)
+            M2.vars[tvar.name].value = t2
+            args2 = {k: jnp.asarray(new_args.get(k, v), ft) for k, v in case["args"].items()}
+            if bij == "default":
+                b2 = Dist(**args2).experimental_default_event_space_bijector()
+            elif bij == "Scale":
+                b2 = tfb.Scale(scale=jnp.asarray(nb if nb is not None else case["bij_arg"], ft))
+            elif bij == "Shift":
+                b2 = tfb.Shift(shift=jnp.asarray(nb if nb is not None else case["bij_arg"], ft))
+            else:
+                b2 = {"Exp": tfb.Exp, "Softplus": tfb.Softplus, "Sigmoid": tfb.Sigmoid, "Identity": tfb.Identity}[bij]()
+            img2 = np.asarray(b2.forward(t2), np.float64)
+            got2 = np.asarray(M2.vars["x"].value, np.float64)
+            if not np.allclose(got2, img2, rtol=1e-9 if x64 else 2e-5, atol=1e-9 if x64 else 1e-6):
+                res.violation("original-not-image", f"in a copy of the model (values changed in the copy): original = {got2.tolist()} "
+                              f"but b(new) = {img2.tolist()}", w)
+            else:
+                lp2 = np.asarray(Dist(**args2).log_prob(jnp.asarray(img2, ft)), np.float64)
+                der2 = jax.vmap(jax.grad(lambda s_: b2.forward(s_)))(t2) if shape else jax.grad(lambda s_: b2.forward(s_))(t2)
+                exp2 = lp2 + np.log(np.abs(np.asarray(der2, np.float64)))
+                g2 = np.asarray(M2.vars[tvar.name].log_prob, np.float64)
+                if not M2.vars[tvar.name].dist_node.per_obs:
+                    exp2 = exp2.sum()
+                if g2.shape != np.shape(exp2) or not np.all(np.abs(g2 - exp2) <= tolf(lp2, exp2 - lp2)):
+                    res.violation("density-wrong", f"in a copy of the model: log p_new(t) = {g2.tolist()} vs {np.asarray(exp2).tolist()}", w)
         if nontriv:
             res.nontriv(("c14", fam, bij, entry, tuple(shape), case["parameter"], case["idx"]))
     except Exception as exc:  # noqa: BLE001
